@@ -31,3 +31,27 @@ func (e Etc) ProcessTailExp(p TailExpProcessor) {
 func (e Etc) HWrite(w HWriter) {
 	w.Writef("...")
 }
+
+// BEtc is the "(...)" expression node: the ellipsis in brackets, which is
+// adjusted to exactly one value wherever it appears (it is not a TailExpNode).
+type BEtc struct {
+	Location
+}
+
+var _ ExpNode = BEtc{}
+
+// InBrackets turns the receiver into a BEtc.
+func (e Etc) InBrackets() BEtc {
+	return BEtc{Location: e.Location}
+}
+
+// ProcessExp uses the given ExpProcessor to process the receiver: it evaluates
+// to the first value of the ellipsis.
+func (e BEtc) ProcessExp(p ExpProcessor) {
+	p.ProcessEtcExp(Etc{Location: e.Location})
+}
+
+// HWrite prints a tree representation of the node.
+func (e BEtc) HWrite(w HWriter) {
+	w.Writef("(...)")
+}
